@@ -41,6 +41,9 @@ def fix_case(c):
     return c
 
 
+MASK_DTYPE_OPS = ["sum", "mean", "max", "size", "median", "cumsum", "cummax", "rolling_sum", "shift", "ema", "T:sum"]
+
+
 def _same_index(p, n):
     """a 'perturbation' that leaves a one-row index unchanged is no misalignment"""
     return p[0] == "index" and n == 1 and p[1] in ("permuted", "duplicated")
@@ -83,6 +86,14 @@ def gen_cases(tier, rng):
                             continue
                         for container in (["series"] if p[0] == "index" else ["ndarray", "series"]):
                             yield dict(op=op, arg=arg, perturb=list(p), container=container, vkind=vkind, **base)
+        # mask dtypes: pandas' nullable "boolean" and arrow-backed bool Series are boolean masks too and follow the same rules
+        for op in MASK_DTYPE_OPS:
+            for mkind in ("boolean", "arrow"):
+                yield dict(op=op, arg=None, perturb=None, container="series", mkind=mkind, **base)
+                for p in PERTURB:
+                    if (p[0] == "len" and n + p[1] < 0) or _same_index(p, n):
+                        continue
+                    yield dict(op=op, arg="mask", perturb=list(p), container="series", mkind=mkind, **base)
         # richer value containers: DataFrame, list of two inputs (the second one misaligned), polars, and a second key
         for op in XOPS:
             for container in XCONT:
@@ -106,9 +117,9 @@ def evaluate(case, drv):
 
     n, op = case["n"], case["op"]
     arg, perturb = case["arg"], case["perturb"]
-    key = repr((op, arg, perturb, case.get("container"), n, case.get("vkind"), case.get("by_groups")))
+    key = repr((op, arg, perturb, case.get("container"), n, case.get("vkind"), case.get("by_groups"), case.get("mkind")))
     bg = {"index_by_groups": True} if case.get("by_groups") else {}
-    res = dict(tags=[f"op:{op}", f"arg:{arg}", f"perturb:{perturb[0] if perturb else 'aligned'}", f"cont:{case.get('container')}", f"vkind:{case.get('vkind', 'float')}", f"layout:{'by-groups' if case.get('by_groups') else 'rows'}"],
+    res = dict(tags=[f"op:{op}", f"arg:{arg}", f"perturb:{perturb[0] if perturb else 'aligned'}", f"cont:{case.get('container')}", f"vkind:{case.get('vkind', 'float')}", f"layout:{'by-groups' if case.get('by_groups') else 'rows'}", f"mask-dtype:{case.get('mkind', 'bool')}"],
                size=n, key=key, nontrivial=True, bucket=(op, arg, perturb[0] if perturb else "aligned", case.get("container"), case.get("vkind"), bool(case.get("by_groups"))))
     base_index = pd.Index([f"r{i}" for i in range(n)])
     cont = case.get("container", "series")
@@ -143,6 +154,8 @@ def evaluate(case, drv):
                 return ser if use_series else pd.DatetimeIndex(ser)
         elif kind == "mask":
             a = np.array([i % 3 != 0 for i in range(length)], dtype=bool)
+            if case.get("mkind"):
+                return pd.Series(a, index=index, name=name).astype("boolean" if case["mkind"] == "boolean" else "bool[pyarrow]")
         elif kind == "times":
             a = np.array([1_600_000_000 + 2 * i for i in range(length)], dtype="int64").view("datetime64[s]")
         elif kind == "key":
